@@ -789,9 +789,14 @@ class BlobStorage(BlobStorageMixin):
         tpc_transaction = getattr(self.__storage, 'tpc_transaction', None)
         foreign = (tpc_transaction is not None and arg
                    and tpc_transaction() is not arg[0])
-        self.__storage.tpc_abort(*arg, **kw)
-        if not foreign:
-            self._blob_tpc_abort()
+        try:
+            if not foreign:
+                # Clean up while this transaction still holds the commit
+                # lock: afterwards another transaction may be adding to
+                # dirty_oids.
+                self._blob_tpc_abort()
+        finally:
+            self.__storage.tpc_abort(*arg, **kw)
 
     def _packUndoing(self, packtime, referencesf, last_tid):
         # Walk over all existing revisions of all blob files and check
